@@ -53,6 +53,12 @@ func (P *Prog) buildNative() *nativeBin {
 		put("zz_verif_"+filepath.Base(h), string(b))
 	}
 	put("zz_verif_prelude.go", preludeNative(pkgName, P.cfg.Entries))
+	for target, src := range P.cfg.Extra {
+		b, _ := os.ReadFile(filepath.Join(P.cfgDir, src))
+		f := filepath.Join(dir, "extra_"+filepath.Base(target))
+		os.WriteFile(f, b, 0o644)
+		ov[filepath.Join(P.repo, target)] = f
+	}
 	put("zz_verif_replay_test.go", replayTest(pkgName))
 	ob, _ := json.Marshal(map[string]interface{}{"Replace": ov})
 	ovf := filepath.Join(dir, "overlay.json")
